@@ -745,7 +745,7 @@ impl Model {
 
     fn copy(&self, op: &Op, s: &str, d: &str) -> Expect {
         let (cmode, follow) = match op {
-            Op::CopyB(_, _, m, f) => (m.clone(), *f),
+            Op::CopyB(_, _, m, f) => (m.effective(), *f),
             _ => (CopyMode::None, false),
         };
         let sa = match self.abs(s) {
@@ -789,6 +789,7 @@ impl Model {
             CopyMode::All(m) => (Some(m), Some(m)),
             CopyMode::Dirs(m) => (Some(m), None),
             CopyMode::Files(m) => (None, Some(m)),
+            CopyMode::Then(..) => unreachable!(),
         };
         if dir_mode == Some(0) || file_mode == Some(0) || dir_mode.unwrap_or(0) > 0o7777 || file_mode.unwrap_or(0) > 0o7777 {
             return Expect::Unspecified("copy mode 0 / type bits");
